@@ -33,10 +33,14 @@ TRUSTED = ["harness/impl/hbond_impl.py (builds the Topology/Trajectory from the 
            "harness/shims/hbond_shim.cpp (exposes the static store_energies)",
            "generator harness/props/C14.py: element/water/sidechain flags of the model topology are derived here from "
            "residue and atom names; comparison by vm_compute inside coqc",
-           "fixed-point evaluation (2^-64) of cos, sqrt, 1/sqrt in the model: numerical, accuracy not proved"]
+           "fixed-point evaluation (2^-44) of cos(angle_cutoff), of the hydrogen position and of the Kabsch-Sander energy in the "
+           "model: numerical, accuracy not proved (the Wernet-Nilsson cone uses proved rational enclosures instead)"]
 ASSUMPTIONS = ["coordinates are multiples of 2^-10 nm (exact in float32); orthorhombic boxes only (triclinic minimum image is C05)",
                "triplets / donors whose geometry is within the guard band of a threshold (1e-5 nm, 2e-5 rad resp. 2e-5 nm for "
-               "the cone; 2e-3 kcal/mol, 1e-4 nm^2 and second/third-best gap for Kabsch-Sander) are excluded and counted",
+               "the cone; 2e-3 kcal/mol, 1e-4 nm^2 and second/third-best gap for Kabsch-Sander) are excluded and counted; for "
+               "the cone the guard only covers mdtraj's float32 rounding: the model side is enclosed rigorously "
+               "(wn_sure_is_sound / wn_maybe_is_complete)",
+               "kabsch_sander has no periodic path (plain Euclidean distances whatever the cell): modelled and run that way",
                "reported Kabsch-Sander energies are compared with the model value under |diff| <= 1e-3 kcal/mol",
                "freq values are such that count/n_frames never ties with freq after rounding"]
 
@@ -821,6 +825,10 @@ def run_store(ctx):
 
 def correspond(ctx):
     quick = ctx.tier == "quick"
+    # the executable model must be built even when a theorem file failed (make stops launching jobs after a failure)
+    ok, log = ctx.make(["Gen/HbondTables.vo", "Gen/HbondFormulas.vo", "Hbond/Run.vo"])
+    if not ok:
+        ctx.break_("build:Hbond/Run.vo", log)
     run_store(ctx)
     systems = build_systems(ctx, 45 if quick else 1200)
     ctx.log("systems:", len(systems))
